@@ -151,6 +151,17 @@ class RegionGeom:
         t = np.cbrt(r[~dmsk] - np.sqrt(dscr[~dmsk]))
         self.losPathLen[~dmsk] = s + t
 
+        # The line-of-sight length is the root of the cubic that lies in [0, sqrt(-q)], i.e.
+        # the branch (psi + 4 pi) / 3.  Selecting it by the range masks above loses events
+        # whose root is rounded just outside [minLOSpathLen, maxLOSpathLen] (u4 at or next
+        # to 0 or 1), so take that branch directly and clip it to the allowed range.
+        psi = np.arccos(np.clip(r / np.sqrt(-(q**3)), -1.0, 1.0))
+        self.losPathLen = np.clip(
+            2 * np.sqrt(-q) * np.cos((psi + 4 * np.pi) / 3),
+            self.minLOSpathLen,
+            self.maxLOSpathLen,
+        )
+
         # self.losPathLen[~dmsk] = np.sum(
         #     np.cbrt(r[~dmsk] + np.multiply.outer([1, -1], np.sqrt(dscr[~dmsk]))),
         #     axis=0,
